@@ -414,6 +414,9 @@ func (c *Ctx) aliasMulti(r *gen.Rand, k int64) {
 		name = "VarTimeMultiScalarMult"
 	}
 	nn := 1 + r.Intn(4)
+	if r.Chance(1, 12) { // many terms, so that the receiver can sit at a high index
+		nn = []int{33, 35, 48, 66}[r.Intn(4)]
+	}
 	ptt, sct := ptType(), scType()
 	// value blocks
 	pblock := make([]int, nn)
